@@ -1,4 +1,5 @@
 import TeosVerif.Model.Tower
+import TeosVerif.Model.Crash
 import TeosVerif.Driver.Util
 /- `tw …` lines: drives `Model.Tower`. -/
 namespace Teos.Drv
@@ -7,6 +8,8 @@ open Teos
 structure TwState where
   cfg : Cfg := { slots := 0, duration := 0, grace := 0 }
   s : Tower := boot Db.empty 0 []
+  /-- armed crash: the next mutating operation lets this many of its durable writes through -/
+  crash : Option Nat := none
 
 def parseSigner (w : String) : Option (Option Nat) :=
   if w = "-" then some none else (num1 w).map some
@@ -114,6 +117,11 @@ def parseBootBlock (w : String) : Option (Nat × List Nat) :=
   | _ => none
 
 def finishOp (st : TwState) (was : Option String) (s' : Tower) (out : String) : TwState × String :=
+  match st.crash with
+  | some k =>
+    -- the process died during this operation: memory is gone, the file keeps a prefix of its writes
+    ({ st with s := { s' with db := crashDb st.s.db s'.db k }, crash := none }, "crashed")
+  | none =>
   match was, s'.aborted with
   | some _, _ => ({ st with s := s' }, "dead")
   | none, some _ => ({ st with s := s' }, "abort")
@@ -132,7 +140,7 @@ def twStep (st : TwState) (ws : List String) : TwState × String :=
     | _, _ => (st, "bad-op")
   | "reboot" :: h :: blocks =>
     match h.toNat?, blocks.mapM parseBootBlock with
-    | some h, some bl => ({ st with s := boot st.s.db h bl }, "ok")
+    | some h, some bl => ({ st with s := boot st.s.db h bl, crash := none }, "ok")
     | _, _ => (st, "bad-op")
   | ["reg", u] =>
     match num1 u with
@@ -160,7 +168,24 @@ def twStep (st : TwState) (ws : List String) : TwState × String :=
     match num1 b, h.toNat? with
     | some b, some h => let (s', r, lg) := step st.cfg st.s (parseNode []) (.disconnect b h); finishOp st was s' (fmtReply r lg)
     | _, _ => (st, "bad-op")
+  | ["crash", k] =>
+    match k.toNat? with
+    | some k => ({ st with crash := some k }, "ok")
+    | none => (st, "bad-op")
+  | "poll" :: tip :: rest =>
+    let blocks := rest.takeWhile fun w => w.startsWith "b"
+    let oracle := rest.dropWhile fun w => w.startsWith "b"
+    let parseB := fun (w : String) => match w.splitOn ":" with
+      | [b, h, ts] => do some (← num1 b, ← h.toNat?, ← parseTxs ts)
+      | _ => none
+    match num1 tip, blocks.mapM parseB with
+    | some tip, some bl =>
+      if was.isSome then (st, "dead") else
+      let (s', lg) := pollBlocks st.cfg st.s (parseNode oracle) bl tip
+      finishOp st was s' ("ok " ++ fmtRpcs lg)
+    | _, _ => (st, "bad-op")
   | ["dump"] => (st, if was.isSome then "dead" else dump st.s)
+  | ["dbdump"] => (st, dump { st.s with mem := { st.s.mem with users := st.s.db.users } })
   | _ => (st, "bad-op")
 
 end Teos.Drv
